@@ -48,6 +48,15 @@ def model_pass(run, a):
     import random
     rng = random.Random(a.seed * 7919 + 37)
     texts = GD.bitfield_packets(rng, 14 if a.tier == "quick" else 80)
+    # size and count fields that are a whole 8- / 16-bit group (read back as signed Java integers: KF-C19-signed-size) and
+    # ones that are not, arrays of scalars of every element width, sized payloads with and without a modifier
+    for e in ("little", "big"):
+        texts.append("%s_endian_packets\n\npacket Sz0 {\n  _size_(a) : 8,\n  a : 8[]\n}\n"
+                     "packet Sz1 {\n  t : 4,\n  _count_(a) : 12,\n  a : 16[]\n}\n"
+                     "packet Sz2 {\n  _size_(_payload_) : 8,\n  k : 8,\n  _payload_\n}\n"
+                     "packet Sz3 {\n  _size_(a) : 16,\n  a : 24[],\n  _count_(b) : 8,\n  b : 8[]\n}\n"
+                     "packet Sz4 {\n  _size_(_payload_) : 16,\n  _payload_ : [+2],\n  x : 8\n}\n"
+                     "packet Sz5 {\n  _count_(a) : 8,\n  a : 40[],\n  c : 32[2]\n}\n" % e)
     be = B.Backend(run, "java", a.tier, a.seed + 11, 0, tag="javam", extra_texts=texts)
     be.generate(stratify=False)
     if not be.descs or not be.build():
@@ -57,6 +66,14 @@ def model_pass(run, a):
         types = d["types"]
         for T in be.types(i, roots_only=True):
             vals = [GV.gen_value(types, T, be.rng)[0] for _ in range(4 if a.tier == "quick" else 10)]
+            if T.startswith("Sz"):
+                # lengths around the sign bit of an 8-bit size / count
+                for L in (0, 127, 128, 200):
+                    v2 = dict(vals[0])
+                    for k2, x in list(v2.items()):
+                        if isinstance(x, list) and not (k2 == "c"):
+                            v2[k2] = [(x[j % len(x)] if x else 5) for j in range(L)]
+                    vals.append(v2)
             mes = be.model(i, T, [{"k": "javaenc", "v": v} for v in vals])
             if not isinstance(mes, list):
                 continue
@@ -252,7 +269,8 @@ def main(argv):
             mo = be.model(i, T, [{"k": "decfull", "hex": s.hex()} for _, s in uniq])
             if not isinstance(mo, list):
                 continue
-            mjd = be.model(i, T, [{"k": "javadec", "hex": s.hex()} for _, s in uniq]) if not decl.get("parent_id") else None
+            # (a packet with children is parsed through its children's classes: outside the model)
+            mjd = be.model(i, T, [{"k": "javadec", "hex": s.hex()} for _, s in uniq]) if not decl.get("parent_id") and not has_kids else None
             mjd = mjd if isinstance(mjd, list) else None
             for n_s, ((kind, s), m) in enumerate(zip(uniq, mo)):
                 r = be.ask(i, T, "dec", s.hex())
